@@ -91,5 +91,40 @@ P('C17',
   level_text='Injectivity of the real lookup functions over their complete finite domains with symbolic indices: 768 piece/square values non-zero and pairwise distinct, 641 status values pairwise distinct, STEP values distinct, PLAYER_TO_MOVE non-zero; transposition_hash == hash ^ status value.',
   level_note='Complete finite domain, symbolic indices: exhaustive.',
   technique='Kani lemmas over the real table lookups, symbolic indices')
+P('C05',
+  assumptions=[ARITH, A2, A7, 'history oracle above the leaf; the leaf (counting on the linked list) is BOUNDED to lists of length <= 4',
+               'the six-line induction that composes the hypotheses h1-h5 (DESIGN section 7, C05) is a paper argument (A2); each hypothesis is a discharged obligation on the real code'],
+  level_text='The property is a lemma over contracts: (h1) the state hash is H(board, side, step) and the turn-start hash is kept/renewed (C08 obligations), (h2) a turn-ending action is offered only if the result hashes unlike the turn start and its other-side hash has not occurred twice (C06 obligations, direction needed here holds without any collision assumption: equal positions have equal hashes), (h3) the history is appended at every turn end and reset exactly at captures (transition obligations), (h4) material never increases and a capture removes exactly one piece (C02/C10), (h5) "occurred twice" is counting on the real list (bounded leaf).',
+  level_note='proof + bounded leaf: hash_history_contains_hash_twice and the List API are checked for lists of length <= 4 only (labelled bounded in the evidence, not counted as proved). The composition of h1-h5 is by the argument in DESIGN.md, not machine-checked.',
+  technique=KANI + '; Verus for the hash folds; bounded Kani harnesses for the linked-list leaf')
+P('C10',
+  assumptions=[ARITH, A2, 'A5 core::fmt writes what it is given: the line/column layout of the printed diagram is not decided; only the per-cell codec is'],
+  level_text='board_wf (word form) is proved equivalent to its per-square form and is pre/postcondition of every mutator (take_action, place); accessors bits_for_piece / player_piece_mask / bits_by_piece_type / piece_type_at_square / piece_type_at_bit equal their definitions over the abstract view at(); Square <-> index <-> bit <-> file/rank for all 64 squares; trap-cleanliness after every step; material limits from the setup invariant plus material-never-increases; diagram letters round-trip.',
+  level_note='Printed diagram: per-cell only (A5). Material monotonicity as a popcount statement is a thorough-tier obligation (557 s); in the quick tier it follows from the per-square step postcondition.',
+  technique=KANI)
+P('C11',
+  assumptions=[ARITH, A3 + ' (only for the clause about which actions the repetition rules withhold)'],
+  level_text='Relational two-run lemmas on the real functions for the file mirror and for colour swap + rank flip (their composition follows): the board transforms are the per-square maps; PieceBoard::take_action, trapped_piece_bits, the freezing mask, the single-step and push-start masks handed to the seam, goal/elimination results, next_push_pull_state, push- and pull-completion lists all commute with the symmetry, for all well-formed boards.',
+  level_note='The repetition clause follows from C06 at position level (A3): hashes of mirrored games are unrelated numbers. is_terminal/valid_actions as wholes commute because every component they are assembled from does (assembly obligations are symmetric in their generator outputs).',
+  technique='Kani relational (two-run) lemmas over fully symbolic boards')
+P('C16',
+  assumptions=[ARITH, A7, 'anyhow error construction is cut at the first Err(..) (sound: in all four parsers nothing but another Err follows an inner Err)',
+               'A5 Display impls are not decided; "printed form" is the byte spec in vspec.rs (file letter, rank digit, direction letter, piece letter)'],
+  level_text='Value level (proof): all 64 squares, conversions mutually inverse, index/bit/file/rank formulas; the seam proved unbounded by Verus plus a bounded Kani companion. String level (BOUNDED): Square/Piece/Direction::from_str over all valid UTF-8 strings of <= 4 bytes, Action::from_str (modular, inner parsers replaced by their contracts) over all valid UTF-8 strings of <= 5 bytes: no panic, Ok only for the printed form of the result; every printed form of the 263 actions / 64 squares / 6 pieces / 4 directions parses back.',
+  level_note='String obligations are bounded by byte length (stated per obligation). Three genuine defects found by these obligations were repaired in /repo (fix: commits 6b1daff, c2981a3), see known_findings.json.',
+  technique='Kani over symbolic bounded UTF-8 strings with modular stubs of inner parsers; Verus for the seam loop')
+P('C18', level='other',
+  assumptions=['A6 Rust guarantees that shared access to Sync data without interior mutability is race-free and deterministic; the "every interleaving equals sequential" clause rests on that theorem and is not checked by a verifier here (Kani has no threads)'],
+  explanation='Send + Sync obligations on the real types are discharged by rustc\'s trait solver on a client crate built against the working tree on every run; a source scan shows there is no interior mutability, no unsafe and no &mut self method on the state types; the persistence of the history list under append is a (bounded) Kani obligation. Not a deductive proof of the interleaving clause.',
+  level_text='Type-level obligations (rustc) + no-interior-mutability scan + persistence obligation on the list; the interleaving clause follows from Rust\'s data-race-freedom guarantee for Sync types without interior mutability.',
+  level_note='category other: rustc trait solving and a syntactic scan, not a program verifier. Kani cannot model threads.',
+  technique='rustc auto-trait obligations on the real types + source scan')
+P('C19',
+  assumptions=[ARITH, A1, A2, A7, 'A5 Display (printed form) excluded; allocation failure and stack depth excluded',
+               'interpretation: piece_board_for_step / current_step are play-phase queries (they unwrap the play phase by documented design)',
+               'known finding D4 (move_number == usize::MAX) is outside the precondition'],
+  level_text='Kani instruments every panic!, unwrap/expect, arithmetic overflow, shift >= width, slice index and unreachable! in the functions it executes; Verus does for the seam and hashing loops. C19 is the conjunction of those checks in the obligations of valid_actions(_no_rep), is_terminal, can_pass, has_move, transposition_hash, trapped_animal_for_action, piece_board_for_step, take_action for every offered action, and setup, under the reachable-state invariant.',
+  level_note='The named panic sites (take_action non-Move arm, unwrap_play_phase, unwrap_must_complete_push, push_piece_value(Elephant), pull_piece_value(Rabbit), 1 << index, first_set_bit(0), previous_piece_boards[step]) are each reached under the invariant in some obligation and shown not to fire.',
+  technique=KANI + ' (built-in panic/overflow/bounds checks); Verus overflow checks on the extracted loops')
 P('C15', claimed=False, na_reason='FromStr/Display for GameState run through regex::Regex and str iterator adapter chains / fmt::Formatter; neither Kani (cannot symbolically execute or stub the regex engine) nor Verus (no str reasoning, no iterator adapters) can carry a contract that quantifies over all strings; the per-function facts it rests on are proved under C08/C10/C16 (DESIGN.md section 7, C15)')
 P('C20', claimed=False, na_reason='the failure is recursion depth of compiler-generated drop glue for Option<Arc<Node<T>>>; stack use is not expressible as a pre/postcondition in Kani (no stack model) or Verus (does not model drop), and there is no function in the source to attach a contract to (DESIGN.md section 7, C20)')
